@@ -80,4 +80,8 @@ def Res.Same : Res → Res → Prop
   | some a, some b => a.1 = b.1 ∧ a.2.1 = b.2.1 ∧ ∀ L, a.2.2 L = b.2.2 L
   | _, _ => False
 
+/-- `d[k] = v` on a plain Python dict kept as an insertion-ordered association list: an existing key keeps its position -/
+def pyDictSet (d : List (Nat × Nat)) (k v : Nat) : List (Nat × Nat) :=
+  if d.any (fun e => e.1 == k) then d.map (fun e => if e.1 = k then (k, v) else e) else d ++ [(k, v)]
+
 end CogentModel.DistNp
